@@ -34,7 +34,7 @@ def swarm(rng, focus, tier='quick'):
     if focus in ('C12', 'C13', 'C15', 'C20', 'C02') and rng.random() < 0.3:
         # ids whose text is a prefix of another id's text (occurrence names are built from str(id))
         pool = [1, 12, 2, 21, 11, 0] if isinstance(pool[0], int) else ['a', 'ab', 'b', 'ba', 'aa', 'c']
-    if focus in ('C01', 'C04', 'C05', 'C07', 'C08') and rng.random() < 0.12:
+    if focus in ('C01', 'C04', 'C05', 'C07', 'C08', 'C19', 'C02', 'C03') and rng.random() < 0.12:
         pool = list(TUPLE_NODES)                    # any hashable id: tuples (they become lists in JSON replay files)
     if tier == 'thorough' and rng.random() < 0.3 and pool in (INT_NODES, STR_NODES):
         pool = pool + ([6, 7] if pool is INT_NODES or pool == INT_NODES else ['g', 'h'])     # larger universes in the thorough tier
@@ -397,7 +397,7 @@ def gen_parse(rng, cfg):
     x = rng.random()
     if x < 0.15:
         op['bad_row'] = rng.randrange(len(rows))
-        op['bad_field'] = rng.choice(['node', 'time']) if op['nodekind'] == 'int' else 'time'
+        op['bad_field'] = rng.choice(['node', 'node2', 'time', 'end', 'end'] if op['nodekind'] == 'int' else ['time', 'end'])
     elif x < 0.4:
         op['keys'] = True
         op['via'] = 'read'
@@ -448,7 +448,8 @@ def gen_probe(rng, rep, cfg, kind):
     if kind == 'probe_all':
         ids = m.instants()
         return {'op': 'probe_all', 'start': start, 'end': end,
-                'min_t': rng.choice([None] + ids) if ids else None}
+                'min_t': (rng.choice([None] + ids) if rng.random() < 0.7 else rng.randint(ids[0] - 1, ids[-1] + 1))
+                if ids else None}        # also instants inside gaps / outside the observed period
     u = rng.choice(nodes)
     v = rng.choice([None, None, u] + nodes)
     op = {'op': kind, 'u': u, 'v': v, 'start': start, 'end': end}
